@@ -87,18 +87,20 @@ Fixpoint distinctb (l : list oslot) : bool :=
   | None :: t => distinctb t
   end.
 
+(* the cheap tests guard the expensive one (match branches are lazy under vm_compute, [&&] is
+   not): the language model is only run on sequences over the vocabulary *)
 Definition slot_okb (eos : option Z) (st0 : state) (tol : Z) (o : oslot) : bool :=
   match o with
   | None => true
   | Some (p, l, z) =>
-      (length p =? l)
-      && forallb (fun v => (0 <=? v)%Z && (v <? Z.of_nat V)%Z) p
-      && match eos with
-         | Some e => forallb (fun v => negb (v =? e)%Z) (removelast p)
-         | None => true end
-      && match chain st0 p with
-         | Some c => (Z.abs (z - c) <=? tol)%Z
-         | None => false end
+      if (length p =? l) && forallb (fun v => (0 <=? v)%Z && (v <? Z.of_nat V)%Z) p
+      then match eos with
+           | Some e => forallb (fun v => negb (v =? e)%Z) (removelast p)
+           | None => true end
+           && match chain st0 p with
+              | Some c => (Z.abs (z - c) <=? tol)%Z
+              | None => false end
+      else false
   end.
 
 (* all complete sequences, by enumeration *)
